@@ -58,7 +58,7 @@ def gen_case(rng, nmax):
     return {"det": det, "n": n, "p": p, "m": m, "M": max(M, max(m, 2)), "X": X, "shape": shape,
             "scale": rng.choice([0.0, 0.0, 0.05, 0.5, 2.0, None]), "mx": rng.choice([2 * m, 2 * m + 1, 200]),
             "g": rng.choice([1.1, 1.5, 2.0]), "mdi": rng.randint(1, max(1, m // 2)),
-            "cost": rng.choice(["default", "default", "l2", "gauss"])}
+            "cost": rng.choice(["default", "default", "l2", "gauss"]), "ignore": rng.random() < 0.3}
 
 
 def build(c):
@@ -76,9 +76,11 @@ def build(c):
         return MovingWindow(cost, bandwidth=m, threshold_scale=sc, min_detection_interval=c["mdi"])
     s = 0.5 if sc is None else sc
     if d == "capa":
-        return CAPA(collective_penalty_scale=s, point_penalty_scale=s, min_segment_length=max(m, 2), max_segment_length=c["M"])
+        return CAPA(collective_penalty_scale=s, point_penalty_scale=s, min_segment_length=max(m, 2), max_segment_length=c["M"],
+                    ignore_point_anomalies=c.get("ignore", False))
     if d == "mvcapa":
-        return MVCAPA(collective_penalty_scale=s, point_penalty_scale=s, min_segment_length=max(m, 2), max_segment_length=c["M"])
+        return MVCAPA(collective_penalty_scale=s, point_penalty_scale=s, min_segment_length=max(m, 2), max_segment_length=c["M"],
+                      ignore_point_anomalies=c.get("ignore", False))
     if d == "cbs":
         return CircularBinarySegmentation(cost if c["cost"] != "default" else None, threshold_scale=sc, min_segment_length=m,
                                           max_interval_length=c["mx"], growth_factor=c["g"])
